@@ -469,3 +469,132 @@ def backward_param_slice(ctx, fid, param, max_depth=8, type_filter=None):
                                     po = origins(par, ops[i][1])
                                     yield chain + [(f.id, "capture %s" % x[2])], par, pb, s["sp"], po
                                     follow(par, po, chain + [(f.id, 0)])
+
+
+def strip_clones(fn, o, depth=0):
+    """Operand -> base local, looking through copies, references and
+    Clone::clone / to_owned calls of single-definition temporaries."""
+    p = op_place(o)
+    if p is None:
+        return None
+    l = p[0]
+    if any(e != "*" for e in p[1]):
+        return l
+    ds = fn.defs().get(l, [])
+    if len(ds) == 1 and depth < 12:
+        d = ds[0]
+        if d[0] == "a" and not d[3]["d"][1]:
+            r = d[3]["r"]
+            if r["k"] == "ref":
+                q = r["p"]
+                if all(e == "*" for e in q[1]):
+                    return strip_clones(fn, {"c": [q[0], []]}, depth + 1)
+                return q[0]
+            if r["k"] == "use" and op_place(r["o"]) is not None:
+                return strip_clones(fn, r["o"], depth + 1)
+        elif d[0] == "call":
+            t = d[2]
+            if t.get("f") in ("core::clone::Clone::clone", "alloc::borrow::ToOwned::to_owned") and t["a"]:
+                return strip_clones(fn, t["a"][0], depth + 1)
+    return l
+
+
+def struct_literals(fn, adt):
+    """[(bb, stmt)] of aggregate assignments constructing `adt`."""
+    out = []
+    for b, bb in enumerate(fn.bbs):
+        for s in bb["s"]:
+            if s["k"] == "a" and s["r"]["k"] == "agg" and s["r"].get("adt") == adt:
+                out.append((b, s))
+    return out
+
+
+def literal_field(stmt, name):
+    for n, o in stmt["r"]["f"]:
+        if n == name:
+            return o
+    return None
+
+
+TRANSPARENT_CALLS = {
+    "core::ops::try_trait::Try::branch",
+    "core::clone::Clone::clone",
+    "alloc::borrow::ToOwned::to_owned",
+    "core::convert::Into::into",
+    "core::convert::From::from",
+    "core::ops::deref::Deref::deref",
+    "core::ops::deref::DerefMut::deref_mut",
+    "core::convert::AsRef::as_ref",
+    "core::borrow::Borrow::borrow",
+    "core::option::Option::<T>::unwrap",
+    "core::option::Option::<T>::expect",
+    "core::option::Option::<T>::as_ref",
+    "core::option::Option::<T>::as_mut",
+    "core::option::Option::<T>::cloned",
+    "core::option::Option::<T>::copied",
+    "core::option::Option::<T>::ok_or",
+    "core::option::Option::<T>::ok_or_else",
+    "core::option::Option::<T>::take",
+    "core::result::Result::<T, E>::unwrap",
+    "core::result::Result::<T, E>::expect",
+    "core::result::Result::<T, E>::map_err",
+    "core::result::Result::<T, E>::ok",
+    "core::result::Result::<T, E>::as_ref",
+    "alloc::boxed::Box::<T>::new",
+    "alloc::string::ToString::to_string",
+}
+
+
+def producers(fn, o, _seen=None, _depth=0):
+    """Who produced this value: walk back through copies, references, field
+    projections and 'transparent' calls (?, clone, into, unwrap ...) to the
+    first producing calls / parameters / constants / aggregates. Unlike
+    origins() this does not include the arguments of the producing call."""
+    seen = _seen if _seen is not None else set()
+    out = set()
+    k = o.get("k") if isinstance(o, dict) else None
+    if k is not None:
+        if "fn" in k:
+            return {("fnitem", k.get("fnr") or k["fn"])}
+        return {("const", k.get("v", k.get("t")))}
+    p = op_place(o) if isinstance(o, dict) else o
+    if p is None:
+        return out
+    for e in p[1]:
+        if isinstance(e, dict) and "f" in e and e.get("a"):
+            out.add(("field", e["a"], e["n"]))
+    l = p[0]
+    if l in seen or _depth > 40:
+        return out
+    seen.add(l)
+    for d in fn.defs().get(l, []):
+        if d[0] == "arg":
+            out.add(("arg", d[1]))
+        elif d[0] == "a":
+            r = d[3]["r"]
+            kk = r["k"]
+            if kk in ("use", "cast", "un", "repeat"):
+                out |= producers(fn, r["o"], seen, _depth + 1)
+            elif kk in ("ref", "disc", "rawptr"):
+                out |= producers(fn, r["p"], seen, _depth + 1)
+            elif kk == "bin":
+                out.add(("binop", r["op"]))
+            elif kk == "agg":
+                if r["ak"] == "adt":
+                    out.add(("agg", r["adt"], r["var"]))
+                    if r["adt"] in ("core::option::Option", "core::result::Result"):
+                        for _n, oo in r["f"]:
+                            out |= producers(fn, oo, seen, _depth + 1)
+                elif r["ak"] == "tuple":
+                    for _n, oo in r["f"]:
+                        out |= producers(fn, oo, seen, _depth + 1)
+                else:
+                    out.add(("agg", r["ak"], ""))
+        elif d[0] == "call":
+            t = d[2]
+            f = t.get("f") or "<indirect>"
+            if f in TRANSPARENT_CALLS and t["a"]:
+                out |= producers(fn, t["a"][0], seen, _depth + 1)
+            else:
+                out.add(("call", f, d[1]))
+    return out
